@@ -33,6 +33,10 @@ func (c *scriptConn) Read(p []byte) (int, error) {
 	if c.closed {
 		return 0, net.ErrClosed
 	}
+	if c.i < len(c.chunks) && len(c.chunks[c.i]) == 0 { // scripted read timeout (deadline fired, no data)
+		c.i++
+		return 0, timeoutErr{}
+	}
 	if c.i < len(c.chunks) {
 		n := copy(p, c.chunks[c.i])
 		if n < len(c.chunks[c.i]) { // never happens: chunks are <= 4096
@@ -57,6 +61,12 @@ func (c *scriptConn) RemoteAddr() net.Addr             { return &net.TCPAddr{IP:
 func (c *scriptConn) SetDeadline(time.Time) error      { return nil }
 func (c *scriptConn) SetReadDeadline(time.Time) error  { return nil }
 func (c *scriptConn) SetWriteDeadline(time.Time) error { return nil }
+
+type timeoutErr struct{}
+
+func (timeoutErr) Error() string   { return "i/o timeout (scripted)" }
+func (timeoutErr) Timeout() bool   { return true }
+func (timeoutErr) Temporary() bool { return true }
 
 type recProto struct {
 	mu   sync.Mutex
@@ -96,11 +106,11 @@ func c07Run(c *c07Case) []Failure {
 	rec := &recProto{}
 	switch c.Side {
 	case "server-pool1":
-		transport.VerifServerRecv(rec, &transport.TarsServerConf{Proto: "tcp", Address: "127.0.0.1:0", MaxInvoke: 1, QueueCap: 1000}, conn)
+		transport.VerifServerRecv(rec, &transport.TarsServerConf{Proto: "tcp", Address: "127.0.0.1:0", MaxInvoke: 1, QueueCap: 1000, IdleTimeout: time.Hour, ReadTimeout: time.Second}, conn)
 	case "server-nopool":
-		transport.VerifServerRecv(rec, &transport.TarsServerConf{Proto: "tcp", Address: "127.0.0.1:0"}, conn)
+		transport.VerifServerRecv(rec, &transport.TarsServerConf{Proto: "tcp", Address: "127.0.0.1:0", IdleTimeout: time.Hour, ReadTimeout: time.Second}, conn)
 	case "client":
-		transport.VerifClientRecv(rec, &transport.TarsClientConf{Proto: "tcp", QueueLen: 10}, conn)
+		transport.VerifClientRecv(rec, &transport.TarsClientConf{Proto: "tcp", QueueLen: 10, ReadTimeout: time.Second, IdleTimeout: time.Hour}, conn)
 	}
 	// handlers run in goroutines: wait until the count is stable
 	want := len(c.Sent)
@@ -320,7 +330,22 @@ func c07Gen(tier string, rng *rand.Rand) []c07Case {
 			if len(stream) > 9000 { // keep case files small
 				continue
 			}
-			c.Chunks = toB(partition(rng, stream, mode))
+			chunks := partition(rng, stream, mode)
+			if rng.Intn(2) == 0 { // read deadlines firing between (and before) data reads: empty chunk = timeout event
+				var withTo [][]byte
+				for _, ch := range chunks {
+					for rng.Intn(4) == 0 {
+						withTo = append(withTo, []byte{})
+					}
+					withTo = append(withTo, ch)
+				}
+				if rng.Intn(2) == 0 {
+					withTo = append(withTo, []byte{})
+				}
+				chunks = withTo
+				c.Kind += "+timeouts"
+			}
+			c.Chunks = toB(chunks)
 			cs = append(cs, c)
 		}
 	}
